@@ -1,0 +1,197 @@
+//go:build verif
+
+// Contracts for the deductive verifier in /verif (govc). Comment-only: this file declares nothing and is
+// compiled only under the build tag `verif`. Syntax: see /verif/DESIGN.md §2.5.
+
+package aclfilter
+
+// BEGIN-GENERATED list filters (/verif/tools/gen_filter_contracts.py)
+//@ file filter.go
+//@ pure maySee_filterHealthChecks(f *Filter, x *structs.HealthCheck) bool = f.allowNode(x.Node, &acl.AuthorizerContext{Peer: x.PeerName}) && f.allowService(x.ServiceName, &acl.AuthorizerContext{Peer: x.PeerName})
+//@ pure maySee_filterServiceNodes(f *Filter, x *structs.ServiceNode) bool = f.allowNode(x.Node, &acl.AuthorizerContext{Peer: x.PeerName}) && f.allowService(x.ServiceName, &acl.AuthorizerContext{Peer: x.PeerName})
+//@ pure maySee_filterCoordinates(f *Filter, x *structs.Coordinate) bool = f.allowNode(x.Node, &acl.AuthorizerContext{})
+//@ pure maySee_filterNodes(f *Filter, x *structs.Node) bool = f.allowNode(x.Node, &acl.AuthorizerContext{Peer: x.PeerName})
+//@ pure maySee_filterSessions(f *Filter, x *structs.Session) bool = f.allowSession(x.Node, &acl.AuthorizerContext{})
+//@ pure maySee_filterCheckServiceNodes(f *Filter, x structs.CheckServiceNode) bool = x.Node != nil && x.Service != nil && f.authorizer.NodeRead(x.Node.Node, &acl.AuthorizerContext{Peer: x.Service.PeerName}) == acl.Allow && f.authorizer.ServiceRead(x.Service.Service, &acl.AuthorizerContext{Peer: x.Service.PeerName}) == acl.Allow
+//@ pure maySee_filterServiceList(f *Filter, x structs.ServiceName) bool = f.authorizer.ServiceRead(x.Name, &acl.AuthorizerContext{}) == acl.Allow
+//@ pure maySee_filterGatewayServices(f *Filter, x *structs.GatewayService) bool = f.authorizer.ServiceRead(x.Service.Name, &acl.AuthorizerContext{}) == acl.Allow
+//@ pure maySee_filterIntentions(f *Filter, x *structs.Intention) bool = x.CanRead(f.authorizer)
+
+//@ func Filter.filterHealthChecks
+//@ props C09
+//@ results removed
+//@ requires f != nil && checks != nil
+//@ requires[elements-non-nil] forall j int :: 0 <= j && j < len(*checks) ==> (*checks)[j] != nil
+//@ ensures[nothing-unreadable-returned] forall j int :: 0 <= j && j < len(*checks) ==> maySee_filterHealthChecks(f, (*checks)[j])
+//@ ensures[only-input-elements] forall j int :: 0 <= j && j < len(*checks) ==> exists o int :: 0 <= o && o < len(old(*checks)) && eq((*checks)[j], old(*checks)[o])
+//@ ensures[nothing-readable-dropped] forall o int :: 0 <= o && o < len(old(*checks)) && maySee_filterHealthChecks(f, old(*checks)[o]) ==> exists j int :: 0 <= j && j < len(*checks) && eq((*checks)[j], old(*checks)[o])
+//@ ensures[flag-iff-removed] removed <==> len(*checks) < len(old(*checks))
+//@ modifies *checks
+//@ loop 1 invariant[bounds] 0 <= i && i <= len(hc) && len(hc) <= len(old(*checks))
+//@ loop 1 invariant[kept-allowed] forall j int :: 0 <= j && j < i ==> maySee_filterHealthChecks(f, hc[j])
+//@ loop 1 invariant[tail-is-input-tail] forall j int :: i <= j && j < len(hc) ==> eq(hc[j], old(*checks)[j + len(old(*checks)) - len(hc)])
+//@ loop 1 invariant[kept-from-input] forall j int :: 0 <= j && j < i ==> exists o int :: 0 <= o && o < i + len(old(*checks)) - len(hc) && eq(hc[j], old(*checks)[o])
+//@ loop 1 invariant[allowed-kept] forall o int :: 0 <= o && o < i + len(old(*checks)) - len(hc) && maySee_filterHealthChecks(f, old(*checks)[o]) ==> exists j int :: 0 <= j && j < i && eq(hc[j], old(*checks)[o])
+//@ loop 1 invariant[flag] removed <==> len(hc) < len(old(*checks))
+
+//@ func Filter.filterServiceNodes
+//@ props C09
+//@ results removed
+//@ requires f != nil && nodes != nil
+//@ requires[elements-non-nil] forall j int :: 0 <= j && j < len(*nodes) ==> (*nodes)[j] != nil
+//@ ensures[nothing-unreadable-returned] forall j int :: 0 <= j && j < len(*nodes) ==> maySee_filterServiceNodes(f, (*nodes)[j])
+//@ ensures[only-input-elements] forall j int :: 0 <= j && j < len(*nodes) ==> exists o int :: 0 <= o && o < len(old(*nodes)) && eq((*nodes)[j], old(*nodes)[o])
+//@ ensures[nothing-readable-dropped] forall o int :: 0 <= o && o < len(old(*nodes)) && maySee_filterServiceNodes(f, old(*nodes)[o]) ==> exists j int :: 0 <= j && j < len(*nodes) && eq((*nodes)[j], old(*nodes)[o])
+//@ ensures[flag-iff-removed] removed <==> len(*nodes) < len(old(*nodes))
+//@ modifies *nodes
+//@ loop 1 invariant[bounds] 0 <= i && i <= len(sn) && len(sn) <= len(old(*nodes))
+//@ loop 1 invariant[kept-allowed] forall j int :: 0 <= j && j < i ==> maySee_filterServiceNodes(f, sn[j])
+//@ loop 1 invariant[tail-is-input-tail] forall j int :: i <= j && j < len(sn) ==> eq(sn[j], old(*nodes)[j + len(old(*nodes)) - len(sn)])
+//@ loop 1 invariant[kept-from-input] forall j int :: 0 <= j && j < i ==> exists o int :: 0 <= o && o < i + len(old(*nodes)) - len(sn) && eq(sn[j], old(*nodes)[o])
+//@ loop 1 invariant[allowed-kept] forall o int :: 0 <= o && o < i + len(old(*nodes)) - len(sn) && maySee_filterServiceNodes(f, old(*nodes)[o]) ==> exists j int :: 0 <= j && j < i && eq(sn[j], old(*nodes)[o])
+//@ loop 1 invariant[flag] removed <==> len(sn) < len(old(*nodes))
+
+//@ func Filter.filterCoordinates
+//@ props C09
+//@ results removed
+//@ requires f != nil && coords != nil
+//@ requires[elements-non-nil] forall j int :: 0 <= j && j < len(*coords) ==> (*coords)[j] != nil
+//@ ensures[nothing-unreadable-returned] forall j int :: 0 <= j && j < len(*coords) ==> maySee_filterCoordinates(f, (*coords)[j])
+//@ ensures[only-input-elements] forall j int :: 0 <= j && j < len(*coords) ==> exists o int :: 0 <= o && o < len(old(*coords)) && eq((*coords)[j], old(*coords)[o])
+//@ ensures[nothing-readable-dropped] forall o int :: 0 <= o && o < len(old(*coords)) && maySee_filterCoordinates(f, old(*coords)[o]) ==> exists j int :: 0 <= j && j < len(*coords) && eq((*coords)[j], old(*coords)[o])
+//@ ensures[flag-iff-removed] removed <==> len(*coords) < len(old(*coords))
+//@ modifies *coords
+//@ loop 1 invariant[bounds] 0 <= i && i <= len(c) && len(c) <= len(old(*coords))
+//@ loop 1 invariant[kept-allowed] forall j int :: 0 <= j && j < i ==> maySee_filterCoordinates(f, c[j])
+//@ loop 1 invariant[tail-is-input-tail] forall j int :: i <= j && j < len(c) ==> eq(c[j], old(*coords)[j + len(old(*coords)) - len(c)])
+//@ loop 1 invariant[kept-from-input] forall j int :: 0 <= j && j < i ==> exists o int :: 0 <= o && o < i + len(old(*coords)) - len(c) && eq(c[j], old(*coords)[o])
+//@ loop 1 invariant[allowed-kept] forall o int :: 0 <= o && o < i + len(old(*coords)) - len(c) && maySee_filterCoordinates(f, old(*coords)[o]) ==> exists j int :: 0 <= j && j < i && eq(c[j], old(*coords)[o])
+//@ loop 1 invariant[flag] removed <==> len(c) < len(old(*coords))
+
+//@ func Filter.filterNodes
+//@ props C09
+//@ results removed
+//@ requires f != nil && nodes != nil
+//@ requires[elements-non-nil] forall j int :: 0 <= j && j < len(*nodes) ==> (*nodes)[j] != nil
+//@ ensures[nothing-unreadable-returned] forall j int :: 0 <= j && j < len(*nodes) ==> maySee_filterNodes(f, (*nodes)[j])
+//@ ensures[only-input-elements] forall j int :: 0 <= j && j < len(*nodes) ==> exists o int :: 0 <= o && o < len(old(*nodes)) && eq((*nodes)[j], old(*nodes)[o])
+//@ ensures[nothing-readable-dropped] forall o int :: 0 <= o && o < len(old(*nodes)) && maySee_filterNodes(f, old(*nodes)[o]) ==> exists j int :: 0 <= j && j < len(*nodes) && eq((*nodes)[j], old(*nodes)[o])
+//@ ensures[flag-iff-removed] removed <==> len(*nodes) < len(old(*nodes))
+//@ modifies *nodes
+//@ loop 1 invariant[bounds] 0 <= i && i <= len(n) && len(n) <= len(old(*nodes))
+//@ loop 1 invariant[kept-allowed] forall j int :: 0 <= j && j < i ==> maySee_filterNodes(f, n[j])
+//@ loop 1 invariant[tail-is-input-tail] forall j int :: i <= j && j < len(n) ==> eq(n[j], old(*nodes)[j + len(old(*nodes)) - len(n)])
+//@ loop 1 invariant[kept-from-input] forall j int :: 0 <= j && j < i ==> exists o int :: 0 <= o && o < i + len(old(*nodes)) - len(n) && eq(n[j], old(*nodes)[o])
+//@ loop 1 invariant[allowed-kept] forall o int :: 0 <= o && o < i + len(old(*nodes)) - len(n) && maySee_filterNodes(f, old(*nodes)[o]) ==> exists j int :: 0 <= j && j < i && eq(n[j], old(*nodes)[o])
+//@ loop 1 invariant[flag] removed <==> len(n) < len(old(*nodes))
+
+//@ func Filter.filterSessions
+//@ props C09
+//@ results removed
+//@ requires f != nil && sessions != nil
+//@ requires[elements-non-nil] forall j int :: 0 <= j && j < len(*sessions) ==> (*sessions)[j] != nil
+//@ ensures[nothing-unreadable-returned] forall j int :: 0 <= j && j < len(*sessions) ==> maySee_filterSessions(f, (*sessions)[j])
+//@ ensures[only-input-elements] forall j int :: 0 <= j && j < len(*sessions) ==> exists o int :: 0 <= o && o < len(old(*sessions)) && eq((*sessions)[j], old(*sessions)[o])
+//@ ensures[nothing-readable-dropped] forall o int :: 0 <= o && o < len(old(*sessions)) && maySee_filterSessions(f, old(*sessions)[o]) ==> exists j int :: 0 <= j && j < len(*sessions) && eq((*sessions)[j], old(*sessions)[o])
+//@ ensures[flag-iff-removed] removed <==> len(*sessions) < len(old(*sessions))
+//@ modifies *sessions
+//@ loop 1 invariant[bounds] 0 <= i && i <= len(s) && len(s) <= len(old(*sessions))
+//@ loop 1 invariant[kept-allowed] forall j int :: 0 <= j && j < i ==> maySee_filterSessions(f, s[j])
+//@ loop 1 invariant[tail-is-input-tail] forall j int :: i <= j && j < len(s) ==> eq(s[j], old(*sessions)[j + len(old(*sessions)) - len(s)])
+//@ loop 1 invariant[kept-from-input] forall j int :: 0 <= j && j < i ==> exists o int :: 0 <= o && o < i + len(old(*sessions)) - len(s) && eq(s[j], old(*sessions)[o])
+//@ loop 1 invariant[allowed-kept] forall o int :: 0 <= o && o < i + len(old(*sessions)) - len(s) && maySee_filterSessions(f, old(*sessions)[o]) ==> exists j int :: 0 <= j && j < i && eq(s[j], old(*sessions)[o])
+//@ loop 1 invariant[flag] removed <==> len(s) < len(old(*sessions))
+
+//@ func Filter.filterCheckServiceNodes
+//@ props C09
+//@ results removed
+//@ requires f != nil && nodes != nil
+//@ ensures[nothing-unreadable-returned] forall j int :: 0 <= j && j < len(*nodes) ==> maySee_filterCheckServiceNodes(f, (*nodes)[j])
+//@ ensures[only-input-elements] forall j int :: 0 <= j && j < len(*nodes) ==> exists o int :: 0 <= o && o < len(old(*nodes)) && eq((*nodes)[j], old(*nodes)[o])
+//@ ensures[nothing-readable-dropped] forall o int :: 0 <= o && o < len(old(*nodes)) && maySee_filterCheckServiceNodes(f, old(*nodes)[o]) ==> exists j int :: 0 <= j && j < len(*nodes) && eq((*nodes)[j], old(*nodes)[o])
+//@ ensures[flag-iff-removed] removed <==> len(*nodes) < len(old(*nodes))
+//@ modifies *nodes
+//@ loop 1 invariant[bounds] 0 <= i && i <= len(csn) && len(csn) <= len(old(*nodes))
+//@ loop 1 invariant[kept-allowed] forall j int :: 0 <= j && j < i ==> maySee_filterCheckServiceNodes(f, csn[j])
+//@ loop 1 invariant[tail-is-input-tail] forall j int :: i <= j && j < len(csn) ==> eq(csn[j], old(*nodes)[j + len(old(*nodes)) - len(csn)])
+//@ loop 1 invariant[kept-from-input] forall j int :: 0 <= j && j < i ==> exists o int :: 0 <= o && o < i + len(old(*nodes)) - len(csn) && eq(csn[j], old(*nodes)[o])
+//@ loop 1 invariant[allowed-kept] forall o int :: 0 <= o && o < i + len(old(*nodes)) - len(csn) && maySee_filterCheckServiceNodes(f, old(*nodes)[o]) ==> exists j int :: 0 <= j && j < i && eq(csn[j], old(*nodes)[o])
+//@ loop 1 invariant[flag] removed <==> len(csn) < len(old(*nodes))
+
+//@ func Filter.filterServiceList
+//@ props C09
+//@ results removed
+//@ requires f != nil && services != nil
+//@ ensures[nothing-unreadable-returned] forall j int :: 0 <= j && j < len(*services) ==> maySee_filterServiceList(f, (*services)[j])
+//@ ensures[only-input-elements] forall j int :: 0 <= j && j < len(*services) ==> exists o int :: 0 <= o && o < len(old(*services)) && eq((*services)[j], old(*services)[o])
+//@ ensures[nothing-readable-dropped] forall o int :: 0 <= o && o < len(old(*services)) && maySee_filterServiceList(f, old(*services)[o]) ==> exists j int :: 0 <= j && j < len(*services) && eq((*services)[j], old(*services)[o])
+//@ ensures[flag-iff-removed] removed <==> len(*services) < len(old(*services))
+//@ modifies *services
+//@ loop 1 invariant[bounds] 0 <= len(ret) && len(ret) <= range1_idx
+//@ loop 1 invariant[kept-allowed] forall j int :: 0 <= j && j < len(ret) ==> maySee_filterServiceList(f, ret[j])
+//@ loop 1 invariant[kept-from-input] forall j int :: 0 <= j && j < len(ret) ==> exists o int :: 0 <= o && o < range1_idx && eq(ret[j], old(*services)[o])
+//@ loop 1 invariant[allowed-kept] forall o int :: 0 <= o && o < range1_idx && maySee_filterServiceList(f, old(*services)[o]) ==> exists j int :: 0 <= j && j < len(ret) && eq(ret[j], old(*services)[o])
+//@ loop 1 invariant[flag] removed <==> len(ret) < range1_idx
+
+//@ func Filter.filterGatewayServices
+//@ props C09
+//@ results removed
+//@ requires f != nil && mappings != nil
+//@ requires[elements-non-nil] forall j int :: 0 <= j && j < len(*mappings) ==> (*mappings)[j] != nil
+//@ ensures[nothing-unreadable-returned] forall j int :: 0 <= j && j < len(*mappings) ==> maySee_filterGatewayServices(f, (*mappings)[j])
+//@ ensures[only-input-elements] forall j int :: 0 <= j && j < len(*mappings) ==> exists o int :: 0 <= o && o < len(old(*mappings)) && eq((*mappings)[j], old(*mappings)[o])
+//@ ensures[nothing-readable-dropped] forall o int :: 0 <= o && o < len(old(*mappings)) && maySee_filterGatewayServices(f, old(*mappings)[o]) ==> exists j int :: 0 <= j && j < len(*mappings) && eq((*mappings)[j], old(*mappings)[o])
+//@ ensures[flag-iff-removed] removed <==> len(*mappings) < len(old(*mappings))
+//@ modifies *mappings
+//@ loop 1 invariant[bounds] 0 <= len(ret) && len(ret) <= range1_idx
+//@ loop 1 invariant[kept-allowed] forall j int :: 0 <= j && j < len(ret) ==> maySee_filterGatewayServices(f, ret[j])
+//@ loop 1 invariant[kept-from-input] forall j int :: 0 <= j && j < len(ret) ==> exists o int :: 0 <= o && o < range1_idx && eq(ret[j], old(*mappings)[o])
+//@ loop 1 invariant[allowed-kept] forall o int :: 0 <= o && o < range1_idx && maySee_filterGatewayServices(f, old(*mappings)[o]) ==> exists j int :: 0 <= j && j < len(ret) && eq(ret[j], old(*mappings)[o])
+//@ loop 1 invariant[flag] removed <==> len(ret) < range1_idx
+
+//@ func Filter.filterIntentions
+//@ props C09
+//@ results removed
+//@ requires f != nil && ixns != nil
+//@ requires[elements-non-nil] forall j int :: 0 <= j && j < len(*ixns) ==> (*ixns)[j] != nil
+//@ ensures[nothing-unreadable-returned] forall j int :: 0 <= j && j < len(*ixns) ==> maySee_filterIntentions(f, (*ixns)[j])
+//@ ensures[only-input-elements] forall j int :: 0 <= j && j < len(*ixns) ==> exists o int :: 0 <= o && o < len(old(*ixns)) && eq((*ixns)[j], old(*ixns)[o])
+//@ ensures[nothing-readable-dropped] forall o int :: 0 <= o && o < len(old(*ixns)) && maySee_filterIntentions(f, old(*ixns)[o]) ==> exists j int :: 0 <= j && j < len(*ixns) && eq((*ixns)[j], old(*ixns)[o])
+//@ ensures[flag-iff-removed] removed <==> len(*ixns) < len(old(*ixns))
+//@ modifies *ixns
+//@ loop 1 invariant[bounds] 0 <= len(ret) && len(ret) <= range1_idx
+//@ loop 1 invariant[kept-allowed] forall j int :: 0 <= j && j < len(ret) ==> maySee_filterIntentions(f, ret[j])
+//@ loop 1 invariant[kept-from-input] forall j int :: 0 <= j && j < len(ret) ==> exists o int :: 0 <= o && o < range1_idx && eq(ret[j], old(*ixns)[o])
+//@ loop 1 invariant[allowed-kept] forall o int :: 0 <= o && o < range1_idx && maySee_filterIntentions(f, old(*ixns)[o]) ==> exists j int :: 0 <= j && j < len(ret) && eq(ret[j], old(*ixns)[o])
+//@ loop 1 invariant[flag] removed <==> len(ret) < range1_idx
+// END-GENERATED list filters
+
+//@ file filter.go
+
+// The "results were filtered" flag is raised exactly when something was removed (response types that carry it).
+//@ func Filter.Filter
+//@ props C09
+//@ requires f != nil
+//@ requires[sessions-non-nil] is[*structs.IndexedSessions](subject) ==> forall j int :: 0 <= j && j < len(as[*structs.IndexedSessions](subject).Sessions) ==> as[*structs.IndexedSessions](subject).Sessions[j] != nil
+//@ requires[nodes-non-nil] is[*structs.IndexedNodes](subject) ==> forall j int :: 0 <= j && j < len(as[*structs.IndexedNodes](subject).Nodes) ==> as[*structs.IndexedNodes](subject).Nodes[j] != nil
+//@ requires[coords-non-nil] is[*structs.IndexedCoordinates](subject) ==> forall j int :: 0 <= j && j < len(as[*structs.IndexedCoordinates](subject).Coordinates) ==> as[*structs.IndexedCoordinates](subject).Coordinates[j] != nil
+//@ requires[checks-non-nil] is[*structs.IndexedHealthChecks](subject) ==> forall j int :: 0 <= j && j < len(as[*structs.IndexedHealthChecks](subject).HealthChecks) ==> as[*structs.IndexedHealthChecks](subject).HealthChecks[j] != nil
+//@ requires[svcnodes-non-nil] is[*structs.IndexedServiceNodes](subject) ==> forall j int :: 0 <= j && j < len(as[*structs.IndexedServiceNodes](subject).ServiceNodes) ==> as[*structs.IndexedServiceNodes](subject).ServiceNodes[j] != nil
+//@ requires[ixns-non-nil] is[*structs.IndexedIntentions](subject) ==> forall j int :: 0 <= j && j < len(as[*structs.IndexedIntentions](subject).Intentions) ==> as[*structs.IndexedIntentions](subject).Intentions[j] != nil
+//@ requires[csn-ptr-non-nil] is[*structs.CheckServiceNodes](subject) ==> as[*structs.CheckServiceNodes](subject) != nil
+//@ requires[topology-non-nil] is[*structs.IndexedServiceTopology](subject) ==> as[*structs.IndexedServiceTopology](subject).ServiceTopology != nil
+//@ requires[nwg-non-nil] is[*structs.IndexedNodesWithGateways](subject) ==> forall j int :: 0 <= j && j < len(as[*structs.IndexedNodesWithGateways](subject).Gateways) ==> as[*structs.IndexedNodesWithGateways](subject).Gateways[j] != nil
+//@ requires[gws-non-nil] is[*structs.IndexedGatewayServices](subject) ==> forall j int :: 0 <= j && j < len(as[*structs.IndexedGatewayServices](subject).Services) ==> as[*structs.IndexedGatewayServices](subject).Services[j] != nil
+//@ ensures[sessions-flag] is[*structs.IndexedSessions](subject) ==> (as[*structs.IndexedSessions](subject).ResultsFilteredByACLs <==> len(as[*structs.IndexedSessions](subject).Sessions) < len(old(as[*structs.IndexedSessions](subject).Sessions)))
+//@ ensures[nodes-flag] is[*structs.IndexedNodes](subject) ==> (as[*structs.IndexedNodes](subject).ResultsFilteredByACLs <==> len(as[*structs.IndexedNodes](subject).Nodes) < len(old(as[*structs.IndexedNodes](subject).Nodes)))
+//@ ensures[coordinates-flag] is[*structs.IndexedCoordinates](subject) ==> (as[*structs.IndexedCoordinates](subject).ResultsFilteredByACLs <==> len(as[*structs.IndexedCoordinates](subject).Coordinates) < len(old(as[*structs.IndexedCoordinates](subject).Coordinates)))
+//@ ensures[health-checks-flag] is[*structs.IndexedHealthChecks](subject) ==> (as[*structs.IndexedHealthChecks](subject).ResultsFilteredByACLs <==> len(as[*structs.IndexedHealthChecks](subject).HealthChecks) < len(old(as[*structs.IndexedHealthChecks](subject).HealthChecks)))
+//@ ensures[service-nodes-flag] is[*structs.IndexedServiceNodes](subject) ==> (as[*structs.IndexedServiceNodes](subject).ResultsFilteredByACLs <==> len(as[*structs.IndexedServiceNodes](subject).ServiceNodes) < len(old(as[*structs.IndexedServiceNodes](subject).ServiceNodes)))
+//@ ensures[check-service-nodes-flag] is[*structs.IndexedCheckServiceNodes](subject) ==> (as[*structs.IndexedCheckServiceNodes](subject).ResultsFilteredByACLs <==> len(as[*structs.IndexedCheckServiceNodes](subject).Nodes) < len(old(as[*structs.IndexedCheckServiceNodes](subject).Nodes)))
+//@ ensures[intentions-flag] is[*structs.IndexedIntentions](subject) ==> (as[*structs.IndexedIntentions](subject).ResultsFilteredByACLs <==> len(as[*structs.IndexedIntentions](subject).Intentions) < len(old(as[*structs.IndexedIntentions](subject).Intentions)))
+//@ ensures[service-list-flag] is[*structs.IndexedServiceList](subject) ==> (as[*structs.IndexedServiceList](subject).ResultsFilteredByACLs <==> len(as[*structs.IndexedServiceList](subject).Services) < len(old(as[*structs.IndexedServiceList](subject).Services)))
+//@ ensures[gateway-services-flag] is[*structs.IndexedGatewayServices](subject) ==> (as[*structs.IndexedGatewayServices](subject).ResultsFilteredByACLs <==> len(as[*structs.IndexedGatewayServices](subject).Services) < len(old(as[*structs.IndexedGatewayServices](subject).Services)))
+//@ ensures[exported-services-flag] is[*structs.IndexedExportedServiceList](subject) ==> (as[*structs.IndexedExportedServiceList](subject).ResultsFilteredByACLs <==> (old(as[*structs.IndexedExportedServiceList](subject).ResultsFilteredByACLs) || exists p string :: old(has(as[*structs.IndexedExportedServiceList](subject).Services, p)) && len(as[*structs.IndexedExportedServiceList](subject).Services[p]) < len(old(as[*structs.IndexedExportedServiceList](subject).Services[p]))))
+//@ loop 1 invariant[flag-so-far] v.ResultsFilteredByACLs <==> (old(as[*structs.IndexedExportedServiceList](subject).ResultsFilteredByACLs) || exists p string :: range1_visited[p] && old(has(v.Services, p)) && len(v.Services[p]) < len(old(v.Services[p])))
+//@ loop 1 invariant[unvisited-untouched] forall p string :: !range1_visited[p] ==> (has(v.Services, p) <==> old(has(v.Services, p))) && eq(v.Services[p], old(v.Services[p]))
+//@ loop 1 invariant[visited-were-present] forall p string :: range1_visited[p] ==> old(has(v.Services, p))
